@@ -118,20 +118,46 @@ Proof.
   exists d, bs. repeat split; try assumption. apply scgf_roundtrip_l; exact Hb.
 Qed.
 
+(* structural part + size part = graph_ok *)
+Lemma gunits_core_small : forall consts nctl gs before,
+  gunits_core consts nctl before gs = true -> forallb gunit_small gs = true ->
+  gunits_ok consts nctl before gs = true.
+Proof.
+  intros consts nctl gs; induction gs as [|g r IH]; intros before Hc Hs; [reflexivity|].
+  cbn [gunits_core forallb] in Hc, Hs. cbn [gunits_ok].
+  apply andb_true_iff in Hc. destruct Hc as [Hg Hr]. apply andb_true_iff in Hs. destruct Hs as [Sg Sr].
+  apply andb_true_iff. split; [|apply IH; assumption].
+  unfold gunit_core in Hg. unfold gunit_small in Sg. unfold gunit_ok. split_andb.
+  assert (Hin : forallb (ginp_ok consts before) (Graph.g_ins g) = true).
+  { match goal with Ha : forallb (ginp_core consts before) _ = true, Hb : forallb ginp_small _ = true |- _ =>
+      rewrite forallb_forall in Ha, Hb; apply forallb_forall; intros x Hx; specialize (Ha x Hx); specialize (Hb x Hx);
+      destruct x as [q|idx ch]; simpl in Ha, Hb |- *; [assumption | rewrite Hb, Ha; reflexivity] end. }
+  rewrite Hin.
+  repeat match goal with Hx : ?b = true |- context [?b] => rewrite Hx end. reflexivity.
+Qed.
+
+Lemma graph_core_small_ok : forall g, graph_core_ok g = true -> graph_small g = true -> graph_ok g = true.
+Proof.
+  intros g Hc Hs. unfold graph_core_ok in Hc. unfold graph_small in Hs. unfold graph_ok. split_andb.
+  rewrite (gunits_core_small _ _ _ _ Hc) by assumption.
+  repeat match goal with Hx : ?b = true |- context [?b] => rewrite Hx end. reflexivity.
+Qed.
+
 (* every compiled program, GIVEN the compiler's well-formedness theorem (compile_wf: C01/C20's
    obligation -- inputs refer to collected constants / strictly earlier units, control units inside
    the control array, field ranges) as an explicit hypothesis *)
 Lemma compiled_roundtrip_partial_l : forall (cmp : Graph.prog -> Graph.res Graph.graph),
-  (forall p g, cmp p = Graph.Ok g -> graph_ok g = true) ->   (* compile_wf *)
+  (forall p g, cmp p = Graph.Ok g -> graph_core_ok g = true) ->   (* compile_wf *)
   forall f32 name pnames p g,
   (forall q, w32_ok (f32 q) = true) ->
   cmp p = Graph.Ok g ->
+  graph_small g = true ->
   names_ok name pnames (zlen (Graph.gr_controls g)) = true ->
   exists d bs, to_sdef f32 name pnames g = Some d /\ wf_def d = true
                /\ write_def d = Some bs /\ parse_def bs = Ok d.
 Proof.
-  intros cmp compile_wf f32 name pnames p g Hf Hc Hn.
-  apply to_sdef_roundtrip_l; try assumption. exact (compile_wf p g Hc).
+  intros cmp compile_wf f32 name pnames p g Hf Hc Hs Hn.
+  apply to_sdef_roundtrip_l; try assumption. apply graph_core_small_ok; [exact (compile_wf p g Hc) | exact Hs].
 Qed.
 
 (* the Prop reading of graph_ok for unit inputs (what C01/C20 have to prove about compile) *)
